@@ -3,7 +3,7 @@
 //!
 //! The real `wit-bindgen` binary is built from the working tree (own target dir). For a few
 //! small worlds × every backend the output directory is put into every state of
-//! {identical, missing, altered byte, appended byte, LF→CRLF}^k over k chosen generated files
+//! {identical, missing, altered byte, appended byte, LF→CRLF, high byte flipped, final newline changed}^k over k chosen generated files
 //! (plus "unrelated extra file present"), `wit-bindgen <backend> .. --check` is run on it, and
 //! compared with an oracle that does not share the check branch: *really generating* into a copy
 //! of the same directory — check must exit 0 iff that generation changes no byte and adds no
@@ -25,8 +25,22 @@ enum St {
     AlteredByte,
     Appended,
     Crlf,
+    /// lowest bit of one byte >= 0x80 flipped (the byte stays >= 0x80, the length stays):
+    /// in a file that is not valid UTF-8 the first byte that is invalid UTF-8, in a UTF-8 text
+    /// file the last byte of the first multi-byte character
+    HighByte,
+    /// only the final newline changed: removed if the file ends with one, added otherwise
+    FinalNewline,
 }
-const STATES: [St; 5] = [St::Identical, St::Missing, St::AlteredByte, St::Appended, St::Crlf];
+const STATES: [St; 7] = [
+    St::Identical,
+    St::Missing,
+    St::AlteredByte,
+    St::Appended,
+    St::Crlf,
+    St::HighByte,
+    St::FinalNewline,
+];
 
 impl St {
     fn name(self) -> &'static str {
@@ -36,6 +50,8 @@ impl St {
             St::AlteredByte => "altered-byte",
             St::Appended => "appended-byte",
             St::Crlf => "crlf",
+            St::HighByte => "high-byte-flipped",
+            St::FinalNewline => "final-newline-changed",
         }
     }
     fn parse(s: &str) -> St {
@@ -47,7 +63,7 @@ fn worlds(thorough: bool) -> Vec<(&'static str, &'static str)> {
     let mut v = vec![
         (
             "funcs",
-            "package t:c33;\n\nworld w {\n  import f: func(x: u32) -> string;\n  export g: func(a: list<u8>) -> string;\n}\n",
+            "package t:c33;\n\n/// na\u{ef}ve caf\u{e9} \u{2014} documentation with multi-byte characters\nworld w {\n  /// pr\u{e9}fixe\n  import f: func(x: u32) -> string;\n  /// r\u{e9}sultat\n  export g: func(a: list<u8>) -> string;\n}\n",
         ),
         (
             "exported-resource",
@@ -144,6 +160,29 @@ fn mutate(bytes: &[u8], st: St) -> Option<Vec<u8>> {
             b.push(b'x');
             Some(b)
         }
+        St::HighByte => {
+            let mut b = bytes.to_vec();
+            let at = match std::str::from_utf8(bytes) {
+                // not UTF-8: the first offending byte (never ASCII)
+                Err(e) => Some(e.valid_up_to()),
+                // UTF-8: last byte of the first multi-byte character, if there is one
+                Ok(t) => t.char_indices().find(|(_, c)| c.len_utf8() > 1).map(|(i, c)| i + c.len_utf8() - 1),
+            };
+            if let Some(i) = at {
+                debug_assert!(b[i] >= 0x80);
+                b[i] ^= 1;
+            }
+            Some(b)
+        }
+        St::FinalNewline => {
+            let mut b = bytes.to_vec();
+            if b.last() == Some(&b'\n') {
+                b.pop();
+            } else {
+                b.push(b'\n');
+            }
+            Some(b)
+        }
         St::Crlf => {
             let mut b = Vec::with_capacity(bytes.len() + 64);
             for c in bytes {
@@ -223,6 +262,18 @@ fn strip_cr(b: &[u8]) -> Vec<u8> {
     o
 }
 
+/// Same sequence of lines when line terminators (LF / CRLF, final newline or not) are ignored.
+fn same_lines(a: &[u8], b: &[u8]) -> bool {
+    fn lines(x: &[u8]) -> Vec<&[u8]> {
+        let mut v: Vec<&[u8]> = x.split(|c| *c == b'\n').collect();
+        if v.last().map(|l| l.is_empty()).unwrap_or(false) {
+            v.pop();
+        }
+        v.into_iter().map(|l| l.strip_suffix(b"\r").unwrap_or(l)).collect()
+    }
+    lines(a) == lines(b)
+}
+
 /// One directory state: returns (violations [(kind, message)], facts)
 fn explore_state(
     cli: &Cli,
@@ -278,6 +329,17 @@ fn explore_state(
             None => false,
         })
         .collect();
+    // differs in line terminators only, in the wider sense (CRLF and/or the final newline)
+    let eol_only: Vec<bool> = changed
+        .iter()
+        .map(|n| match before_copy.get(n) {
+            Some(old) => {
+                let new = &after_copy[n];
+                old != new && is_text(old) && is_text(new) && same_lines(old, new)
+            }
+            None => false,
+        })
+        .collect();
     // ---- the transition under test
     let snap0 = snapshot(&case);
     let (rc, err) = cli.run(backend, args, wit, &case, true, work);
@@ -317,10 +379,10 @@ fn explore_state(
                 format!("only line endings differ in {changed:?} but the message is: {last}"),
             ));
         }
-        if crlf_only.iter().all(|x| !*x) && mentions {
+        if eol_only.iter().all(|x| !*x) && mentions {
             v.push((
                 "difference-misreported-as-line-endings".to_string(),
-                format!("no file differs only in line endings ({changed:?}) but the message is: {last}"),
+                format!("no file differs only in line terminators ({changed:?}) but the message is: {last}"),
             ));
         }
     }
@@ -329,10 +391,14 @@ fn explore_state(
     (v, facts)
 }
 
-fn choose(names: &[String], k: usize) -> Vec<String> {
+/// The k files put through every state: first the generated files that are not valid UTF-8
+/// (the `*_component_type.o` of C and C++), then the first, last and middle name.
+fn choose(baseline: &BTreeMap<String, Vec<u8>>, k: usize) -> Vec<String> {
+    let names: Vec<String> = baseline.keys().cloned().collect();
+    let names = &names;
     let n = names.len();
-    let mut idx = vec![0usize, n.saturating_sub(1), n / 2];
-    idx.dedup();
+    let mut idx: Vec<usize> = (0..n).filter(|i| std::str::from_utf8(&baseline[&names[*i]]).is_err()).collect();
+    idx.extend([0usize, n.saturating_sub(1), n / 2]);
     let mut out: Vec<String> = Vec::new();
     for i in idx {
         if out.len() < k && i < n && !out.contains(&names[i]) {
@@ -403,13 +469,35 @@ fn main() {
         }
         let baseline = files_of(&snapshot(&base));
         let names: Vec<String> = baseline.keys().cloned().collect();
-        let chosen = choose(&names, k);
-        // all |STATES|^|chosen| assignments
+        let chosen = choose(&baseline, k);
+        // per file: the states of the alphabet that give pairwise different contents (a state
+        // that does not apply to the file — CRLF without LF, high byte in pure ASCII —
+        // coincides with `identical` and is not run twice)
+        let applicable: Vec<Vec<St>> = chosen
+            .iter()
+            .map(|n| {
+                let mut seen: Vec<Option<Vec<u8>>> = Vec::new();
+                STATES
+                    .iter()
+                    .filter(|s| {
+                        let m = mutate(&baseline[n], **s);
+                        if seen.contains(&m) {
+                            false
+                        } else {
+                            seen.push(m);
+                            true
+                        }
+                    })
+                    .copied()
+                    .collect()
+            })
+            .collect();
+        // all combinations
         let mut assignments: Vec<Vec<St>> = vec![vec![]];
-        for _ in 0..chosen.len() {
+        for app in &applicable {
             assignments = assignments
                 .into_iter()
-                .flat_map(|a| STATES.iter().map(move |s| { let mut a = a.clone(); a.push(*s); a }))
+                .flat_map(|a| app.iter().map(move |s| { let mut a = a.clone(); a.push(*s); a }))
                 .collect();
         }
         let mut cases: Vec<(Vec<(String, St)>, bool)> = assignments
@@ -440,6 +528,7 @@ fn main() {
         }
         let _ = std::fs::remove_dir_all(&work);
         json!({"w": wi, "b": bi, "files": names, "chosen": chosen, "cases": out,
+               "applicable": chosen.iter().zip(&applicable).map(|(n, a)| json!({"file": n, "binary": std::str::from_utf8(&baseline[n]).is_err(), "states": a.iter().map(|s| s.name()).collect::<Vec<_>>()})).collect::<Vec<_>>(),
                "outcomes": outcomes, "generate_then_check": first_gen_then_check})
     });
 
@@ -460,7 +549,7 @@ fn main() {
             skipped.push(json!({"world": ws[wi].0, "backend": backend, "generation_error": s}));
             continue;
         }
-        per_pair.push(json!({"world": ws[wi].0, "backend": backend, "generated_files": r["files"], "files_put_through_all_states": r["chosen"], "states": r["cases"].as_array().unwrap().len()}));
+        per_pair.push(json!({"world": ws[wi].0, "backend": backend, "generated_files": r["files"], "files_put_through_all_states": r["applicable"], "states": r["cases"].as_array().unwrap().len()}));
         if r["generate_then_check"]["exit"].as_i64() != Some(0) {
             gen_then_check_fails.push(json!({"world": ws[wi].0, "backend": backend, "check_after_fresh_generation": r["generate_then_check"]}));
         }
@@ -515,6 +604,7 @@ fn main() {
         "exhaustive": true,
         "state_alphabet_per_file": STATES.iter().map(|s| s.name()).collect::<Vec<_>>(),
         "k_files_put_through_every_state": k,
+        "state_alphabet_note": "a state that leaves a file's bytes equal to an earlier state of the alphabet (CRLF in a file without LF, high-byte flip in pure ASCII) is merged with it; files that are not valid UTF-8 are always among the k files",
         "extra_cases": ["unrelated extra file + all identical", "unrelated extra file + first file missing"],
         "worlds": ws.iter().map(|w| w.0).collect::<Vec<_>>(),
         "backends": bvs.iter().map(|b| json!({"backend": b.backend, "args": b.args})).collect::<Vec<_>>(),
@@ -523,7 +613,7 @@ fn main() {
         "distinct_outcomes": outcomes.len(),
         "distinct_outcome_classes_exit_uptodate_crlfonly": outcomes,
         "generate_then_check_fails_without_any_edit": gen_then_check_fails,
-        "oracle": "`--check` exits 0 ⇔ really generating into a copy of the same directory changes no byte and creates no file; if every file such a generation would rewrite differs only by CR before LF (and is text) the message must mention line endings, if none does it must not; names, bytes and mtimes of the checked directory (recursively, directories included) are identical before and after `--check`",
+        "oracle": "`--check` exits 0 ⇔ really generating into a copy of the same directory changes no byte and creates no file; if every file such a generation would rewrite differs only by CR before LF (and is text) the message must mention line endings, if none differs only in line terminators (CRLF / final newline) it must not; names, bytes and mtimes of the checked directory (recursively, directories included) are identical before and after `--check`",
         "cli_build_s_not_part_of_the_budget": (build_s * 10.0).round() / 10.0,
         "exploration_s_after_the_cli_build": (t_explore.elapsed().as_secs_f64() * 10.0).round() / 10.0,
         "hash_seed": "every CLI process runs with the getrandom shim and VERIF_HASH_SEED=0, so MoonBit's seed-dependent output order (C15) cannot blur this check",
@@ -536,7 +626,7 @@ fn main() {
             "\"every file it would generate\" is read per directory state: the C++ generator emits `<class>.h.template` instead of `<class>.h` when the latter exists, so the expected verdict comes from a real generation into a copy of the same directory, not from the first generation's file list".into(),
             "all processes share hash seed 0 (LD_PRELOAD shim); nondeterminism across seeds is C15's subject".into(),
             "only the default option set of each backend is used (check mode is option-independent code in src/bin/wit-bindgen.rs)".into(),
-            "the altered/appended states change one byte; a removed final newline is not in the alphabet".into(),
+            "a difference in the final newline only may be reported either as a line-ending difference (the CLI does) or as not up to date".into(),
         ],
     )
 }
